@@ -27,7 +27,11 @@ CTXS = ("stmt", "plus", "array", "arg", "cond", "assign")
 PRELUDE = (
     "var A2=[1,2], O={x:1}, F=function(){ return 0; };\n"
     "function id2(a,b){ return b; }\n"
-    "function desc(e){ if (typeof e === 'string') return 's:'+e;"
+    "function desc(e){ var r = desc0(e);"
+    " if (e && typeof e === 'object') { if (e.zzSeen !== undefined) r += '|already-caught-by:' + e.zzSeen; e.zzSeen = (++zzCatchCount); }"
+    " return r; }\n"
+    "var zzCatchCount = 0;\n"
+    "function desc0(e){ if (typeof e === 'string') return 's:'+e;"
     " if (e instanceof TypeError) return 'TypeError|'+e.name+'|'+(e instanceof Error);"
     " if (e instanceof ReferenceError) return 'ReferenceError|'+e.name+'|'+(e instanceof Error);"
     " if (e instanceof SyntaxError) return 'SyntaxError|'+e.name+'|'+(e instanceof Error);"
